@@ -6,12 +6,14 @@ import (
 	"errors"
 	"fmt"
 	"github.com/dave/dst/decorator/resolver"
+	"github.com/dave/dst/decorator/resolver/simple"
 	"go/parser"
 	"go/token"
 	"math/rand"
 	"os"
 	"path/filepath"
 	"sort"
+	"strings"
 	"sync"
 	"time"
 
@@ -245,6 +247,10 @@ func (f *pathFailRR) ResolvePackage(path string) (string, error) {
 }
 
 func checkC20(c *Ctx) {
+	if os.Getenv("VERIF_PART") == "corpus" { // development aid: the corpus leg only
+		c20Corpus(c)
+		return
+	}
 	c.Assume("decorator.Load cannot run offline (go/packages); the Package value is built by hand around a packages.Package with only PkgPath set, which is all save() reads")
 	for _, v := range []string{"code", "continue-after-error", "wrong-path", "no-truncate"} {
 		r, err := RunTLC(TLCRun{Module: "Save", Workers: 2, Timeout: 5 * time.Minute, Cfg: fmt.Sprintf("CONSTANTS NFiles = 4 Variant = \"%s\"\nINIT Init\nNEXT Next\nINVARIANTS OnlyRecordedPaths OwnContents StopAtFirstError AllWrittenOnSuccess\nCHECK_DEADLOCK FALSE\n", v)})
@@ -459,6 +465,20 @@ func c20Corpus(c *Ctx) {
 		if len(f.Src) > 40000 || !isCanonical(f.Src) || dupImport(f.Src) || bytes.Contains(f.Src, []byte("import \"C\"")) {
 			return
 		}
+		// accurate package names (read from the imported packages' sources; the hand-written files import
+		// invented packages, whose names are the last elements of their paths): a resolver that only guesses
+		// would be the one to blame for an import that disappears
+		names, ok := exactImportNames(f.Src)
+		if !ok {
+			if !strings.Contains(f.Path, "/corpus/extra/") {
+				return
+			}
+			names = nil
+		}
+		var rr resolver.RestorerResolver = guess.New()
+		if names != nil {
+			rr = simple.New(names)
+		}
 		root, err := os.MkdirTemp("", "dstv-savec-")
 		if err != nil {
 			return
@@ -469,7 +489,7 @@ func c20Corpus(c *Ctx) {
 		os.WriteFile(p, f.Src, 0644)
 		os.WriteFile(other, []byte("keep"), 0644)
 		fset := token.NewFileSet()
-		d := decorator.NewDecoratorWithImports(fset, "example.com/pkg", goast.WithResolver(guess.New()))
+		d := decorator.NewDecoratorWithImports(fset, "example.com/pkg", goast.WithResolver(rr))
 		af, err := parser.ParseFile(fset, p, nil, parser.ParseComments)
 		if err != nil {
 			return
@@ -480,7 +500,7 @@ func c20Corpus(c *Ctx) {
 		}
 		pkg := &decorator.Package{Package: &packages.Package{PkgPath: "example.com/pkg"}, Decorator: d, Dir: root, Syntax: []*dst.File{df}}
 		var serr error
-		msg := guard(func() { serr = pkg.SaveWithResolver(guess.New()) })
+		msg := guard(func() { serr = pkg.SaveWithResolver(rr) })
 		key := "corpus-save|" + f.Path
 		c.Eval(key, true)
 		switch {
